@@ -101,6 +101,9 @@ def col_keys(D, full=True):
     ints = list(range(-D - 1, D + 1)) if full else [0, -1, D]
     ks += [(repr(i), 'g') for i in ints]
     ks += [(repr(n), 'g') for n in (names if full else names[:1])] + [("'nope'", 'g')]
+    # near misses of a real name are unknown names too (matching is exact)
+    near = ["'CH1 '", "' CH1'", "'ch1'", "'CH'", "'CH11'", "''", "'CH1\\t'", "['CH1', 'CH2 ']", "('ch2', 0)"]
+    ks += [(n, 'g') for n in (near if full else near[:3])]
     ks += [(s, 'g') for s in slices(D, full)]
     elems = [repr(n) for n in names] + [repr(i) for i in range(-D, D)]
     if full:
